@@ -23,7 +23,13 @@ import re
 from rsfront import Unsupported, parse_body, split_top
 import rsfront
 
-INT = {"u8": 8, "u16": 16, "u32": 32, "u64": 64, "u128": 128, "i8": 8, "i16": 16, "i32": 32, "i64": 64, "i128": 128}
+INT = {"u8": 8, "u16": 16, "u32": 32, "u64": 64, "u128": 128, "i8": 8, "i16": 16, "i32": 32, "i64": 64, "i128": 128,
+       # core::num::Wrapping<u32> / <u64>: same representation and arithmetic as the plain type in this translation (plain
+       # + - * are translated as wrapping anyway); the one semantic difference is `<<` / `>>`, whose amount is taken
+       # modulo the width instead of being a debug-profile panic (see FnTr.binop)
+       "w32": 32, "w64": 64}
+WRAP = {"w32": "u32", "w64": "u64"}
+FLATTEN_MAX = 8        # arrays (other than byte strings) of at most this static length are flattened to one variable per element
 LEAN_KW = {"end", "from", "at", "have", "show", "then", "fun", "in", "do", "by", "open", "variable", "example", "st",
            "instance", "local", "where", "with", "structure", "class", "def", "theorem", "using", "calc", "this",
            "match", "if", "else", "let", "mut", "return", "for", "Type", "Prop", "Sort", "prefix", "infix", "max", "min"}
@@ -32,9 +38,52 @@ def lname(x):
     x = x.replace("__m", "_m")
     return x + "_" if x in LEAN_KW else x
 
+def unwrap_ty(t):
+    return WRAP.get(t, t)
+
+def same_int(a, b):
+    return a == b or (a in INT and b in INT and unwrap_ty(a) == unwrap_ty(b))
+
+# per-translation context for types: `type` aliases of the file / unit and the values of the integer constants (array
+# lengths such as `[u32; SEED_WORDS]`); set by Unit / translate_fn
+TYCTX = dict(aliases={}, consts={})
+
 def ty_of_tokens(toks):
     s = "".join(t[1] for t in toks) if not isinstance(toks, str) else toks
     return parse_ty(s)
+
+def const_int(s):
+    """value of a constant integer expression over literals and the known integer constants, or None"""
+    s = s.strip()
+    if re.match(r"^[0-9][0-9xa-fA-F_]*(?:usize|u32|u64)?$", s):
+        return rsfront.parse_int(s)[0]
+    try:
+        e = rsfront.Parser(rsfront.lex(s), {}).parse_expr_all()
+    except Exception:
+        return None
+    return const_eval(e, TYCTX["consts"])
+
+def const_eval(e, consts):
+    import operator
+    k = e[0]
+    if k == "lit":
+        return e[1]
+    if k == "paren":
+        return const_eval(e[1], consts)
+    if k == "cast":
+        return const_eval(e[1], consts)
+    if k == "path" and len(e[1]) == 1 and e[1][0] in consts:
+        return consts[e[1][0]]
+    if k == "bin":
+        a, b = const_eval(e[2], consts), const_eval(e[3], consts)
+        if a is None or b is None:
+            return None
+        f = {"+": operator.add, "-": operator.sub, "*": operator.mul, "/": operator.floordiv, "%": operator.mod,
+             "<<": operator.lshift, ">>": operator.rshift, "&": operator.and_, "|": operator.or_, "^": operator.xor}.get(e[1])
+        if f is None or (e[1] in ("/", "%") and b == 0) or (e[1] == "-" and a < b) or (e[1] in ("<<", ">>") and b > 63):
+            return None
+        return f(a, b)
+    return None
 
 def parse_ty(s):
     s = s.strip()
@@ -42,23 +91,41 @@ def parse_ty(s):
         return parse_ty(s[4:])
     if s.startswith("&"):
         return parse_ty(s[1:])
+    if s.startswith("mut ") :
+        return parse_ty(s[4:])
+    if s in TYCTX["aliases"]:
+        return parse_ty(TYCTX["aliases"][s])
     if s in INT:
         return s
     if s in ("usize", "isize"):
         return "nat"
     if s == "bool":
         return "bool"
-    m = re.match(r"^\[(.+);(.+)\]$", s)
+    m = re.match(r"^\[(.+);([^;\[\]]+)\]$", s)
     if m:
         n = m.group(2)
-        return ("arr", parse_ty(m.group(1)), int(n, 0) if re.match(r"^[0-9xa-fA-F_]+$", n) else n)
+        v = const_int(n)
+        return ("arr", parse_ty(m.group(1)), v if v is not None else n)
     m = re.match(r"^\[(.+)\]$", s)
     if m:
         return ("slice", parse_ty(m.group(1)))
-    m = re.match(r"^(?:w|Wrapping)<(.+)>$", s)
+    m = re.match(r"^(?:w|Wrapping|core::num::Wrapping)<(.+)>$", s)
     if m:
-        return parse_ty(m.group(1))
+        inner = parse_ty(m.group(1))
+        if inner == "u32":
+            return "w32"
+        if inner == "u64":
+            return "w64"
+        return inner
     return ("named", s)
+
+def is_arr(t, flat=None):
+    """array type with a static length other than a byte string; flat=True/False additionally asks for (non-)flattened"""
+    if not (isinstance(t, tuple) and t[0] == "arr" and t[1] != "u8" and isinstance(t[2], int)):
+        return False
+    if flat is None:
+        return True
+    return (t[2] <= FLATTEN_MAX) == flat
 
 def lean_ty(t):
     if t in INT:
@@ -69,6 +136,8 @@ def lean_ty(t):
         return "Bool"
     if isinstance(t, tuple) and t[0] in ("arr", "slice") and t[1] == "u8":
         return "List U8"
+    if isinstance(t, tuple) and t[0] == "arr" and t[1] in INT:
+        return f"Array (BitVec {INT[t[1]]})"
     if isinstance(t, tuple) and t[0] == "lean":
         return t[1]
     raise Unsupported(f"no Lean type for {t}")
@@ -111,15 +180,25 @@ class StructInfo:
         # fields: { rust field name: (rust type, lean projection or [lean projections] for flattened arrays) }
 
 class Unit:
-    """one translated impl: the struct, its methods, constants and macros in scope"""
-    def __init__(self, name, sinfo, methods, consts, macros, prims, namespace):
+    """one translated impl: the struct, its methods, constants and macros in scope.
+    `aliases`: type aliases (file-level `type X = …`, associated types as `Self::X`); `const_vals`: integer constants by value."""
+    def __init__(self, name, sinfo, methods, consts, macros, prims, namespace, aliases=None, const_vals=None):
         self.name, self.sinfo, self.methods, self.consts, self.macros = name, sinfo, methods, consts, macros
         self.prims, self.namespace = prims, namespace
+        self.aliases, self.const_vals = dict(aliases or {}), dict(const_vals or {})
         self.sigs = {}
+        self.enter()
         for m, fn in methods.items():
             selfk = next((p[1] for p in fn.params if p[0] == "self"), None)
             self.sigs[m] = dict(selfkind=selfk, ret=ty_of_tokens(fn.ret) if fn.ret else None,
-                                params=[(p[0], ty_of_tokens(p[1])) for p in fn.params if p[0] != "self"])
+                                params=[(p[0], ty_of_tokens(p[1])) for p in fn.params if p[0] != "self"],
+                                mutref={p[0] for p in fn.params if p[0] != "self" and [t[1] for t in p[1][:2]] == ["&", "mut"]})
+
+    def enter(self):
+        TYCTX["aliases"], TYCTX["consts"] = self.aliases, self.const_vals
+
+    def struct_lean(self):
+        return self.sinfo.lean
 
 class Scope:
     def __init__(self, parent=None):
@@ -132,11 +211,20 @@ class Scope:
             s = s.parent
         return None
     def declare(self, n, var):
+        if re.match(r"^[abcejrt]_\d+$", n):
+            # the translator's own temporaries are called r_1, e_2, …: a source variable of that form could be captured
+            raise Unsupported(f"variable name {n} clashes with the translator's temporaries")
         self.vars[n] = var
 
 class Var:
-    def __init__(self, name, ty, lean, elems=None, key=None, const=False):
+    """a Rust variable.  `elems`: flattened array (one Lean variable per element); `view`: (base place AST, offset) for a slice
+    view obtained from split_at(_mut) — reads and writes go to the base at index + offset; `alias`: (owner variable name,
+    field) for `let t = &mut owner.field` — the field is moved out into the Lean variable and written back at the next use of
+    the owner (the borrow checker guarantees the owner is not used while the alias is live); `mutref`: a `&mut` parameter,
+    returned as part of the function's result."""
+    def __init__(self, name, ty, lean, elems=None, key=None, const=False, view=None, alias=None, mutref=False):
         self.name, self.ty, self.lean, self.elems, self.key, self.const = name, ty, lean, elems, key, const
+        self.view, self.alias, self.mutref, self.dead = view, alias, mutref, False
 
 class FnTr:
     """translates one function"""
@@ -148,6 +236,8 @@ class FnTr:
         self.tmp = 0
         self.scope = Scope()
         self.lines = None
+        self.aliases = []            # live `let t = &mut owner.field` aliases (Var objects)
+        self.ignored_asserts = []    # assert!/debug_assert! statements skipped (panics are C14's subject, not this tie's)
 
     # ---------- helpers
     def fresh(self, base="t"):
@@ -162,18 +252,46 @@ class FnTr:
             self.inferred[key] = ty
             self.changed = True
 
+    @staticmethod
+    def place_root(e):
+        while e[0] in ("index", "field", "paren", "deref", "ref"):
+            e = e[2] if e[0] == "ref" else e[1]
+        if e[0] == "path" and len(e[1]) == 1:
+            return e[1][0]
+        return None
+
+    @staticmethod
+    def mentions(x, name):
+        """does the AST fragment mention the variable `name`"""
+        if isinstance(x, tuple):
+            if len(x) == 2 and x[0] == "path" and x[1] == [name]:
+                return True
+            return any(FnTr.mentions(y, name) for y in x)
+        if isinstance(x, list):
+            return any(FnTr.mentions(y, name) for y in x)
+        return False
+
     # ---------- analysis: variables assigned in a block (outer variables only)
     def assigned(self, stmts, tail, declared=None):
         declared = set(declared or ())
         out = []
-        def add(n):
-            if n not in declared and n not in out:
+        local_views = {}      # view / alias declared inside the analysed block -> root variable of its base
+        place_root = self.place_root
+        def add(n, depth=0):
+            if n is None or depth > 8:
+                return
+            if n in local_views:
+                return add(local_views[n], depth + 1)
+            if n in declared:
+                return
+            v = self.scope.get(n) if n != "self" else None
+            if v is not None and v.view is not None:
+                return add(place_root(v.view[0]), depth + 1)
+            if n not in out:
                 out.append(n)
-        def place_root(e):
-            while e[0] in ("index", "field", "paren", "deref"):
-                e = e[1]
-            if e[0] == "path" and len(e[1]) == 1:
-                return e[1][0]
+        def callee_sig(f):
+            if f[0] == "path" and f[1][-1] in self.u.sigs and (len(f[1]) == 1 or f[1][0] in ("Self", self.u.name)):
+                return self.u.sigs[f[1][-1]]
             return None
         def visit_e(e):
             if not isinstance(e, tuple):
@@ -181,17 +299,27 @@ class FnTr:
             k = e[0]
             if k == "mcall":
                 recv = e[1]
-                if recv[0] == "path" and recv[1] == ["self"] and self.u.sigs.get(e[2], {}).get("selfkind") == "mut":
-                    add("self")
+                msig = self.u.sigs.get(e[2])
+                if recv[0] == "path" and len(recv[1]) == 1 and msig and msig.get("selfkind") == "mut":
+                    add(recv[1][0])
+                if e[2] in ("copy_from_slice", "iter_mut", "split_at_mut"):
+                    add(place_root(recv))
+                if msig:
+                    for a, (pn, _) in zip(e[3], msig["params"]):
+                        if pn in msig["mutref"]:
+                            add(place_root(a))
                 visit_e(recv)
                 for a in e[3]:
                     visit_e(a)
             elif k == "call":
-                for a in e[2]:
+                sig = callee_sig(e[1])
+                for i, a in enumerate(e[2]):
                     if a[0] == "ref" and a[1]:
                         r = place_root(a[2])
                         if r:
                             add(r)
+                    elif sig and i < len(sig["params"]) and sig["params"][i][0] in sig["mutref"]:
+                        add(place_root(a))
                     if a[0] == "path" and a[1] == ["self"]:
                         add("self")
                     visit_e(a)
@@ -203,15 +331,23 @@ class FnTr:
                 visit_b((e[1], e[2]))
             elif k in ("bin",):
                 visit_e(e[2]); visit_e(e[3])
-            elif k in ("un", "cast", "paren", "deref", "field", "try"):
+            elif k in ("un",):
+                visit_e(e[2])
+            elif k in ("cast", "paren", "deref", "field", "try"):
                 visit_e(e[1])
             elif k == "ref":
                 visit_e(e[2])
             elif k == "index":
                 visit_e(e[1]); visit_e(e[2])
+            elif k == "range":
+                visit_e(e[1]); visit_e(e[2])
+            elif k == "closure":
+                visit_e(e[2])
             elif k in ("array", "tuple"):
                 for a in e[1]:
                     visit_e(a)
+            elif k == "repeat":
+                visit_e(e[1]); visit_e(e[2])
             elif k == "struct":
                 for _, a in e[2]:
                     visit_e(a)
@@ -223,24 +359,37 @@ class FnTr:
             if tl is not None:
                 visit_e(tl)
             declared.clear(); declared.update(saved)
+        def pat_names(p):
+            return [p[1]] if p[0] == "name" else list(p[1])
         def visit_s(s):
             k = s[0]
             if k == "let":
-                if s[4] is not None:
-                    visit_e(s[4])
-                for n in ([s[1][1]] if s[1][0] == "name" else s[1][1]):
-                    declared.add(n)
+                init = s[4]
+                if init is not None:
+                    visit_e(init)
+                    i0 = init
+                    while i0[0] == "paren":
+                        i0 = i0[1]
+                    if i0[0] == "ref" or (i0[0] == "mcall" and i0[2] in ("split_at_mut", "split_at", "iter_mut")):
+                        r = place_root(i0[2] if i0[0] == "ref" else i0[1])
+                        if r is not None:
+                            for n in pat_names(s[1]):
+                                local_views[n] = r
+                for n in pat_names(s[1]):
+                    if n not in local_views:
+                        declared.add(n)
             elif k == "assign":
                 r = place_root(s[1])
                 if r:
                     add(r)
+                visit_e(s[1])
                 visit_e(s[3])
             elif k == "expr":
                 visit_e(s[1])
             elif k == "for":
                 visit_e(s[2])
                 saved = set(declared)
-                for n in ([s[1][1]] if s[1][0] == "name" else s[1][1]):
+                for n in pat_names(s[1]):
                     declared.add(n)
                 visit_b(s[3])
                 declared.clear(); declared.update(saved)
@@ -292,6 +441,199 @@ class FnTr:
             raise Unsupported(f"unknown field self.{fname}")
         return f
 
+    def lookup(self, n):
+        v = self.scope.get(n)
+        if v is not None and v.dead:
+            raise Unsupported(f"use of `{n}` after the value it borrows from was used again")
+        return v
+
+    def struct_var(self, e):
+        """Lean name of `self` / of a local variable that holds a value of the unit's struct; None otherwise"""
+        while e[0] in ("paren", "deref"):
+            e = e[1]
+        if e[0] == "path" and len(e[1]) == 1:
+            n = e[1][0]
+            v = self.lookup(n)
+            if v is not None and v.ty == ("named", "Self") and v.elems is None and v.view is None:
+                self.touch(n)
+                return v.lean
+        return None
+
+    # -- `let t = &mut owner.field`: moved out, written back when the owner is used again
+    def touch(self, name):
+        for a in list(self.aliases):
+            if a.alias[0] == name:
+                self.flush(a)
+
+    def flush(self, a):
+        owner = self.scope.get(a.alias[0])
+        rty, proj = self.self_field(a.alias[1])
+        if owner is None or isinstance(proj, list) or proj is None:
+            raise Unsupported("write-back of a borrowed field")
+        self.emit(f"let {owner.lean} : {self.u.sinfo.lean} := {{ {owner.lean} with {proj} := {a.lean} }};")
+        a.dead = True
+        self.aliases.remove(a)
+
+    def preflush(self, ast):
+        """before a compound statement: write back the aliases whose owner the statement mentions"""
+        for a in list(self.aliases):
+            if self.mentions(ast, a.alias[0]):
+                self.flush(a)
+
+    def end_scope(self):
+        """aliases declared in the innermost scope end with it"""
+        for a in list(self.aliases):
+            if self.scope.vars.get(a.name) is a:
+                self.flush(a)
+
+    # -- array elements
+    @staticmethod
+    def nat_sum(off, idx):
+        """Lean text of `off + idx` (Nat), re-associated to the left: `512 + (256 + x)` is written `512 + 256 + x`"""
+        if off == 0:
+            return idx
+        if idx.lit is not None:
+            return Val(str(off + idx.lit), "nat", lit=off + idx.lit)
+        add = getattr(idx, "addends", None) or [idx.atom()]
+        v = Val(" + ".join([str(off)] + add), "nat")
+        v.addends = [str(off)] + add
+        return v
+
+    def resolve_base(self, b, off=0):
+        """base of an indexing expression -> (kind, payload, static offset); follows slice views to their base"""
+        while b[0] in ("paren", "deref") or (b[0] == "ref"):
+            b = b[2] if b[0] == "ref" else b[1]
+        if b[0] == "mcall" and b[2] in ("as_mut", "as_ref") and not b[3]:
+            return self.resolve_base(b[1], off)
+        if b[0] == "path" and len(b[1]) == 1:
+            v = self.lookup(b[1][0])
+            if v is None:
+                raise Unsupported(f"unknown name {b[1][0]}")
+            if v.view is not None:
+                return self.resolve_base(v.view[0], off + v.view[1])
+            return ("var", v, off)
+        if b[0] == "field":
+            sv = self.struct_var(b[1])
+            if sv is not None:
+                rty, proj = self.self_field(b[2])
+                return ("field", (sv, rty, proj), off)
+            if b[2] == "0":
+                return self.resolve_base(b[1], off)
+        if b[0] == "index" and b[2][0] == "range":
+            sl = self.slice_of(b)
+            return self.resolve_base(sl[0], off + sl[1])
+        raise Unsupported(f"indexing into {b[0]}")
+
+    def read_elem(self, base, idx_ast):
+        kind, pl, off = self.resolve_base(base)
+        idx = self.expr(idx_ast, "nat")
+        if kind == "var":
+            v = pl
+            ty = v.ty if v.ty is not None else self.inferred.get(v.key)
+            if v.elems is not None:
+                if idx.lit is None:
+                    raise Unsupported("variable index into a flattened array")
+                i = off + idx.lit
+                if i >= len(v.elems):
+                    raise Unsupported("literal index out of bounds")
+                return v.elems[i]
+            lean = v.lean
+        else:
+            sv, ty, proj = pl
+            if isinstance(proj, list):
+                if idx.lit is None:
+                    raise Unsupported("variable index into a flattened array")
+                i = off + idx.lit
+                if i >= len(proj):
+                    raise Unsupported("literal index out of bounds")
+                return Val(f"{sv}.{proj[i]}", ty[1])
+            lean = f"{sv}.{proj}" if proj is not None else sv
+        if not (isinstance(ty, tuple) and ty[0] in ("arr", "slice")):
+            raise Unsupported("index into non-array")
+        i = self.nat_sum(off, idx)
+        if ty[1] == "u8":
+            return Val(f"byteAt {lean} {i.atom()}", "u8")
+        return Val(f"rd {lean} {i.atom()}", ty[1])
+
+    def write_elem(self, base, idx_ast, val, idx_val=None):
+        kind, pl, off = self.resolve_base(base)
+        idx = idx_val if idx_val is not None else self.expr(idx_ast, "nat")
+        if kind == "var":
+            v = pl
+            if v.const:
+                raise Unsupported("assignment to an element of a constant")
+            if v.elems is not None:
+                if idx.lit is None:
+                    raise Unsupported("variable index into a flattened array")
+                i = off + idx.lit
+                if i >= len(v.elems):
+                    raise Unsupported("literal index out of bounds")
+                if v.elems[i].ty is None and val.ty is not None:
+                    v.elems[i].ty = val.ty
+                    self.infer(v.key, ("arr", val.ty, len(v.elems)))
+                self.emit(f"let {v.elems[i].lean} := {val.lean};")
+                return
+            ty = v.ty if v.ty is not None else self.inferred.get(v.key)
+            if not (isinstance(ty, tuple) and ty[0] == "arr" and ty[1] != "u8"):
+                raise Unsupported("element assignment into this type")
+            if ty[1] is None and val.ty is not None:
+                self.infer(v.key, ("arr", val.ty, ty[2]))
+            i = self.nat_sum(off, idx)
+            self.emit(f"let {v.lean} := wr {v.lean} {i.atom()} {val.atom()};")
+            return
+        sv, ty, proj = pl
+        if isinstance(proj, list):
+            if idx.lit is None:
+                raise Unsupported("variable index into a flattened array")
+            i = off + idx.lit
+            if i >= len(proj):
+                raise Unsupported("literal index out of bounds")
+            self.emit(f"let {sv} : {self.u.sinfo.lean} := {{ {sv} with {proj[i]} := {val.lean} }};")
+            return
+        if proj is None or not (isinstance(ty, tuple) and ty[0] == "arr" and ty[1] != "u8"):
+            raise Unsupported("element assignment into this field")
+        i = self.nat_sum(off, idx)
+        self.emit(f"let {sv} : {self.u.sinfo.lean} := {{ {sv} with {proj} := wr {sv}.{proj} {i.atom()} {val.atom()} }};")
+
+    def static_len(self, base):
+        """static length of an array place (after following views: the remaining length), or None"""
+        kind, pl, off = self.resolve_base(base)
+        if kind == "var":
+            if pl.elems is not None:
+                return len(pl.elems) - off
+            ty = pl.ty if pl.ty is not None else self.inferred.get(pl.key)
+        else:
+            ty = pl[1]
+        if isinstance(ty, tuple) and ty[0] == "arr" and isinstance(ty[2], int):
+            return ty[2] - off
+        return None
+
+    def slice_of(self, e):
+        """a slice expression (`a`, `&a[..]`, `a[lo..hi]`, `&mut a[lo..]`, a view variable) -> (base place AST, offset, length)"""
+        while e[0] in ("paren", "ref", "deref"):
+            e = e[2] if e[0] == "ref" else e[1]
+        if e[0] == "mcall" and e[2] in ("iter", "iter_mut", "as_ref", "as_mut") and not e[3]:
+            return self.slice_of(e[1])
+        if e[0] == "index" and e[2][0] == "range":
+            base, off0, len0 = self.slice_of(e[1])
+            r = e[2]
+            lo = 0 if r[1] is None else self.expr(r[1], "nat").lit
+            hi = len0 if r[2] is None else self.expr(r[2], "nat").lit
+            if lo is None or (r[2] is not None and hi is None):
+                raise Unsupported("slice bounds that are not constants")
+            if hi is not None and r[3]:
+                hi += 1
+            if hi is not None and (lo > hi or (len0 is not None and hi > len0)):
+                raise Unsupported("slice bounds out of range")
+            return (base, off0 + lo, None if hi is None else hi - lo)
+        if e[0] in ("path", "field"):
+            if e[0] == "path" and len(e[1]) == 1:
+                v = self.lookup(e[1][0])
+                if v is not None and v.view is not None:
+                    return (v.view[0], v.view[1], v.view[2])
+            return (e, 0, self.static_len(e))
+        raise Unsupported(f"slice expression {e[0]}")
+
     def read_place(self, e, want=None):
         """value of a place expression (variable, self.f, x[i], self.f[i])"""
         k = e[0]
@@ -300,17 +642,24 @@ class FnTr:
         if k == "path":
             if len(e[1]) == 1:
                 n = e[1][0]
-                if n == "self":
+                v = self.lookup(n)
+                if n == "self" and v is None:
                     return Val("st", ("named", "Self"))
-                v = self.scope.get(n)
                 if v is not None:
+                    if v.view is not None:
+                        raise Unsupported("a slice view used as a value")
+                    self.touch(n)
                     ty = v.ty if v.ty is not None else self.inferred.get(v.key)
                     if ty is None and want is not None:
                         self.infer(v.key, want); ty = want
-                    return Val(v.lean, ty, elems=v.elems, place=v)
+                    if isinstance(ty, tuple) and ty[0] == "arr" and ty[1] is None and isinstance(want, tuple) and want[0] == "arr" \
+                            and want[1] is not None:
+                        ty = ("arr", want[1], ty[2])
+                        self.infer(v.key, ty)
+                    return Val(v.lean, ty, elems=v.elems, place=v, lit=getattr(v, "lit", None))
                 if n in self.u.consts:
                     cty, cl = self.u.consts[n]
-                    return Val(cl, cty)
+                    return Val(cl, cty, lit=self.u.const_vals.get(n))
                 raise Unsupported(f"unknown name {n}")
             if e[1][0] in ("u32", "u64", "i32", "u8", "u16", "i64", "usize") and e[1][1] in ("MAX", "MIN", "BITS"):
                 ty = "nat" if e[1][0] == "usize" else e[1][0]
@@ -322,37 +671,26 @@ class FnTr:
                 return Val(lit_lean(v, ty), ty, lit=v)
             if e[1][0] == "Self" and e[1][1] in self.u.consts:
                 cty, cl = self.u.consts[e[1][1]]
-                return Val(cl, cty)
+                return Val(cl, cty, lit=self.u.const_vals.get(e[1][1]))
             raise Unsupported(f"path {'::'.join(e[1])}")
         if k == "field":
-            base = e[1]
-            if base[0] == "path" and base[1] == ["self"]:
+            sv = self.struct_var(e[1])
+            if sv is not None:
                 rty, proj = self.self_field(e[2])
                 if isinstance(proj, list):
-                    elems = [Val(f"st.{p}", rty[1]) for p in proj]
+                    elems = [Val(f"{sv}.{p}", rty[1]) for p in proj]
                     return Val(None, rty, elems=elems)
                 if proj is None:
-                    return Val("st", rty)
-                return Val(f"st.{proj}", rty)
-            b = self.read_place(base)
+                    return Val(sv, rty)
+                return Val(f"{sv}.{proj}", rty)
+            b = self.expr(e[1])
             if e[2] == "0":       # Wrapping(x).0, Seed512.0
-                return b
+                return Val(b.lean, unwrap_ty(b.ty), elems=b.elems, lit=b.lit, place=b.place)
             raise Unsupported(f"field .{e[2]}")
         if k == "index":
-            b = self.read_place(e[1])
-            if b.elems is not None:
-                if e[2][0] != "lit":
-                    raise Unsupported("variable index into a flattened array")
-                i = e[2][1]
-                if i >= len(b.elems):
-                    raise Unsupported("literal index out of bounds")
-                return b.elems[i]
-            idx = self.expr(e[2], "nat")
-            if isinstance(b.ty, tuple) and b.ty[0] in ("arr", "slice"):
-                if b.ty[1] == "u8":
-                    return Val(f"byteAt {b.atom()} {idx.atom()}", "u8")
-                return Val(f"rd {b.atom()} {idx.atom()}", b.ty[1])
-            raise Unsupported("index into non-array")
+            if e[2][0] == "range":
+                raise Unsupported("a slice used as a value")
+            return self.read_elem(e[1], e[2])
         if k == "deref":
             return self.read_place(e[1], want)
         raise Unsupported(f"place {k}")
@@ -363,9 +701,12 @@ class FnTr:
         if k == "paren" or k == "deref":
             return self.write_place(e[1], val)
         if k == "path" and len(e[1]) == 1:
-            v = self.scope.get(e[1][0])
+            v = self.lookup(e[1][0])
             if v is None:
                 raise Unsupported(f"assignment to unknown {e[1][0]}")
+            if v.const or v.view is not None:
+                raise Unsupported(f"assignment to {e[1][0]}")
+            self.touch(e[1][0])
             if v.elems is not None:
                 if val.elems is None or len(val.elems) != len(v.elems):
                     raise Unsupported("whole-array assignment of different shape")
@@ -375,52 +716,34 @@ class FnTr:
                 for d, t in zip(v.elems, tmp):
                     self.emit(f"let {d.lean} := {t};")
                 return
+            if val.elems is not None:
+                raise Unsupported("assignment of a flattened array to a variable")
             if v.ty is None:
                 self.infer(v.key, val.ty)
             self.emit(f"let {v.lean} := {val.lean};")
             return
-        if k == "field" and e[1][0] == "path" and e[1][1] == ["self"]:
+        if k == "field":
+            sv = self.struct_var(e[1])
+            if sv is None:
+                raise Unsupported("assignment to a field of this expression")
             rty, proj = self.self_field(e[2])
+            T = self.u.sinfo.lean
             if isinstance(proj, list):
                 if val.elems is None or len(val.elems) != len(proj):
                     raise Unsupported("self.array = value of different shape")
                 upd = ", ".join(f"{p} := {x.lean}" for p, x in zip(proj, val.elems))
-                self.emit(f"let st : {self.u.sinfo.lean} := {{ st with {upd} }};")
+                self.emit(f"let {sv} : {T} := {{ {sv} with {upd} }};")
+            elif val.elems is not None:
+                raise Unsupported("assignment of a flattened array to a field")
             elif proj is None:
-                self.emit(f"let st : {self.u.sinfo.lean} := {val.lean};")
+                self.emit(f"let {sv} : {T} := {val.lean};")
             else:
-                self.emit(f"let st : {self.u.sinfo.lean} := {{ st with {proj} := {val.lean} }};")
+                self.emit(f"let {sv} : {T} := {{ {sv} with {proj} := {val.lean} }};")
             return
         if k == "index":
-            base = e[1]
-            while base[0] == "paren":
-                base = base[1]
-            if e[2][0] == "lit":
-                i = e[2][1]
-                if base[0] == "field" and base[1][0] == "path" and base[1][1] == ["self"]:
-                    rty, proj = self.self_field(base[2])
-                    if isinstance(proj, list):
-                        self.emit(f"let st : {self.u.sinfo.lean} := {{ st with {proj[i]} := {val.lean} }};")
-                        return
-                if base[0] == "path" and len(base[1]) == 1:
-                    v = self.scope.get(base[1][0])
-                    if v is not None and v.elems is not None:
-                        if v.elems[i].ty is None and val.ty is not None:
-                            v.elems[i].ty = val.ty
-                            self.infer(v.key, ("arr", val.ty, len(v.elems)))
-                        self.emit(f"let {v.elems[i].lean} := {val.lean};")
-                        return
-            # general array element store
-            idx = self.expr(e[2], "nat")
-            if base[0] == "path" and len(base[1]) == 1:
-                v = self.scope.get(base[1][0])
-                if v is not None and v.elems is None:
-                    self.emit(f"let {v.lean} := wr {v.lean} {idx.atom()} {val.atom()};")
-                    return
-            if base[0] == "field" and base[1][0] == "path" and base[1][1] == ["self"]:
-                rty, proj = self.self_field(base[2])
-                self.emit(f"let st : {self.u.sinfo.lean} := {{ st with {proj} := wr st.{proj} {idx.atom()} {val.atom()} }};")
-                return
+            if e[2][0] == "range":
+                raise Unsupported("assignment to a slice")
+            return self.write_elem(e[1], e[2], val)
         raise Unsupported(f"assignment to {k}")
 
     # ---------- expressions
@@ -433,6 +756,15 @@ class FnTr:
     def coerce(self, v, ty):
         if v.ty == ty or ty is None:
             return v
+        if v.ty in INT and ty in INT and same_int(v.ty, ty):
+            return Val(v.lean, ty, elems=v.elems, lit=v.lit, place=v.place)
+        if isinstance(v.ty, tuple) and v.ty[0] == "arr" and v.ty[1] is None and isinstance(ty, tuple) and ty[0] == "arr" \
+                and ty[1] is not None and v.ty[2] == ty[2]:
+            if v.place is not None:
+                self.infer(v.place.key, ty)
+            if v.elems is not None:
+                return Val(v.lean, ty, elems=[self.fix(x, ty[1]) for x in v.elems], place=v.place)
+            return Val(v.lean.replace("@@ELEM@@", lit_lean(0, ty[1])) if v.lean else v.lean, ty, place=v.place)
         if v.lit is not None and (v.ty is None):
             return Val(lit_lean(v.lit, ty), ty, lit=v.lit)
         if v.ty is None:
@@ -476,13 +808,15 @@ class FnTr:
                 raise Unsupported("cast of a value of unknown type")
             if to in INT and v.ty in INT:
                 if INT[to] == INT[v.ty]:
-                    return Val(v.lean, to)
+                    return Val(v.lean, to, lit=v.lit)
                 if v.ty.startswith("i") and INT[to] > INT[v.ty]:
                     return Val(f"{v.atom()}.signExtend {INT[to]}", to)
                 return Val(f"{v.atom()}.setWidth {INT[to]}", to)
             if to == "nat" and v.ty in INT:
                 if v.ty.startswith("i"):
                     raise Unsupported("signed to usize cast")
+                if INT[v.ty] > 64:
+                    raise Unsupported("u128 to usize cast")
                 return Val(f"{v.atom()}.toNat", "nat")
             if to in INT and v.ty == "nat":
                 return Val(f"BitVec.ofNat {INT[to]} {v.atom()}", to)
@@ -520,32 +854,60 @@ class FnTr:
                 raise Unsupported("array repeat with a non-literal count")
             ety = want[1] if isinstance(want, tuple) and want[0] == "arr" else None
             x = self.expr(e[1], ety)
+            if n.lit > FLATTEN_MAX and x.ty != "u8" and ety != "u8":
+                # a large array stays an `Array`; the element must be a constant
+                if x.lit is None:
+                    raise Unsupported("large array repeat of a non-literal element")
+                if x.ty is None:
+                    if x.lit != 0:
+                        raise Unsupported("large array repeat of an untyped non-zero literal")
+                    return Val(f"Array.replicate {n.lit} @@ELEM@@", ("arr", None, n.lit))
+                return Val(f"Array.replicate {n.lit} {x.atom()}", ("arr", x.ty, n.lit))
             return Val(None, ("arr", x.ty, n.lit), elems=[Val(x.lean, x.ty, lit=x.lit) for _ in range(n.lit)])
         if k == "struct":
             return self.struct_lit(e)
         if k == "tuple":
             vs = [self.expr(x) for x in e[1]]
             return Val("(" + ", ".join(v.lean for v in vs) + ")", ("tuple", [v.ty for v in vs]))
+        if k == "unsafe":
+            raise Unsupported("unsafe block")
         if k == "macro":
             raise Unsupported(f"macro {e[1]}! in expression position")
         raise Unsupported(f"expression {k}")
 
-    def binop(self, op, l, r, want):
+    def binop(self, op, l, r, want, pre=None):
+        """`pre` = (value of l, value of r) when the caller has evaluated the operands itself (compound assignment)"""
         cmp = op in ("==", "!=", "<", ">", "<=", ">=")
         logic = op in ("&&", "||")
         if logic:
-            a, b = self.expr(l, "bool"), self.expr(r, "bool")
+            a = self.expr(l, "bool")
+            n0 = len(self.lines)
+            b = self.expr(r, "bool")
+            if len(self.lines) != n0:
+                raise Unsupported("side effects in the right operand of && / ||")
             return Val(f"{a.atom()} {op} {b.atom()}", "bool")
         if op in ("<<", ">>"):
-            a = self.expr(l, want if not cmp else None)
-            b = self.expr(r)
+            if pre is not None:
+                a, b = pre
+            else:
+                a = self.expr(l, want if not cmp else None)
+                n0 = len(self.lines)
+                b = self.expr(r)
+                a = self.pin(a, n0)
             if a.ty is None and want is None and a.lit is not None:
                 # `1 << b` with the type fixed by the context of the parent
                 pass
             if b.lit is not None:
-                if a.ty in INT and b.lit >= INT[a.ty]:
+                if a.ty in WRAP:
+                    amt = str(b.lit % INT[a.ty])            # Wrapping<T>: the amount is masked to the width
+                elif a.ty in INT and b.lit >= INT[a.ty]:
                     raise Unsupported("shift by at least the width")
-                amt = str(b.lit)
+                else:
+                    amt = str(b.lit)
+            elif a.ty in WRAP:
+                if b.ty != "nat":
+                    raise Unsupported("Wrapping shift by a non-usize amount")
+                amt = f"({b.atom()} % {INT[a.ty]})"           # `Shl<usize> for Wrapping<T>`: amount & (BITS - 1)
             elif b.ty == "nat":
                 amt = b.atom()
             elif b.ty in INT:
@@ -561,8 +923,13 @@ class FnTr:
                 v.deferred = (a.lit, lop, amt)
                 return v
             return Val(f"{a.atom()} {lop} {amt}", a.ty)
-        a = self.expr(l, None if cmp else want)
-        b = self.expr(r, a.ty if a.ty is not None else (None if cmp else want))
+        if pre is not None:
+            a, b = pre
+        else:
+            a = self.expr(l, None if cmp else want)
+            n0 = len(self.lines)
+            b = self.expr(r, a.ty if a.ty is not None else (None if cmp else want))
+            a = self.pin(a, n0)
         if a.ty is None and b.ty is not None:
             a = self.fix(a, b.ty)
         if b.ty is None and a.ty is not None:
@@ -608,7 +975,22 @@ class FnTr:
                 return Val(f"{a.atom()} {op} {b.atom()}", "bool")
             return Val(f"decide ({a.atom()} {op} {b.atom()})", "bool")
         lop = {"^": "^^^", "|": "|||", "&": "&&&", "+": "+", "-": "-", "*": "*", "/": "/", "%": "%"}[op]
-        return Val(f"{a.atom()} {lop} {b.atom()}", ty)
+        v = Val(f"{a.atom()} {lop} {b.atom()}", ty)
+        if ty == "nat" and op == "+":
+            v.addends = (getattr(a, "addends", None) or [a.atom()]) + [b.atom()]
+        return v
+
+    def pin(self, a, n0):
+        """Rust evaluates operands left to right: when the evaluation of a later operand emitted bindings (a call that
+        rebinds `st`, out-parameters, …) an earlier operand that is not a constant is bound to a name *before* them"""
+        if len(self.lines) == n0 or a.lean is None or a.lit is not None or a.elems is not None:
+            return a
+        if re.match(r"^[A-Za-z_][\w']*(\.[12])*$", a.lean) and re.match(r"^[rb]_\d+", a.lean):
+            return a          # a temporary of this translator: never rebound
+        t = self.fresh("e")
+        self.lines.insert(n0, f"let {t} := {a.lean};")
+        out = Val(t, a.ty)
+        return out
 
     def fix(self, v, ty):
         """give an untyped literal / deferred literal shift / unknown variable the type `ty`"""
@@ -636,9 +1018,15 @@ class FnTr:
 
     def mcall(self, e, want):
         _, recv, name, args = e
-        # self.method(...)
-        if recv[0] == "path" and recv[1] == ["self"] and name in self.u.sigs:
-            return self.self_call(name, args)
+        # self.method(...) / local_struct_value.method(...)
+        if name in self.u.sigs and self.u.sigs[name]["selfkind"]:
+            sv = self.struct_var(recv)
+            if sv is not None:
+                return self.emit_call(name, sv, args)
+        if name == "copy_from_slice" and len(args) == 1:
+            return self.copy_from_slice(recv, args[0])
+        if name == "copy_within" and len(args) == 2:
+            return self.copy_within(recv, args[0], args[1])
         # iterator idioms on byte strings
         if name == "all" and recv[0] == "mcall" and recv[2] == "iter":
             base = self.expr(recv[1])
@@ -659,12 +1047,35 @@ class FnTr:
             raise Unsupported(".iter().all on this type")
         v = self.expr(recv, want if name in ("wrapping_add", "wrapping_sub", "wrapping_mul", "rotate_left", "rotate_right") else None)
         if name in ("wrapping_add", "wrapping_sub", "wrapping_mul"):
+            n0 = len(self.lines)
             b = self.expr(args[0], v.ty)
+            v = self.pin(v, n0)
             if v.ty is None:
                 v = self.fix(v, b.ty)
             op = {"wrapping_add": "+", "wrapping_sub": "-", "wrapping_mul": "*"}[name]
+            if v.ty == "nat":
+                # usize (64-bit target): arithmetic modulo 2^64 on Nat
+                if name == "wrapping_sub":
+                    return Val(f"({v.atom()} + 2 ^ 64 - {b.atom()}) % 2 ^ 64", "nat")
+                return Val(f"({v.atom()} {op} {b.atom()}) % 2 ^ 64", "nat")
+            if v.ty not in INT:
+                raise Unsupported(f".{name}() on a value of type {v.ty}")
             return Val(f"{v.atom()} {op} {b.atom()}", v.ty)
+        if name in ("saturating_add", "saturating_sub") and len(args) == 1:
+            n0 = len(self.lines)
+            b = self.expr(args[0], v.ty)
+            v = self.pin(v, n0)
+            if v.ty is None:
+                v = self.fix(v, b.ty)
+            if v.ty not in INT or v.ty.startswith("i") or v.ty in WRAP:
+                raise Unsupported(f".{name}() on a value of type {v.ty}")
+            w = INT[v.ty]
+            if name == "saturating_add":
+                return Val(f"(if {v.atom()}.toNat + {b.atom()}.toNat < 2 ^ {w} then {v.atom()} + {b.atom()} else {lit_lean((1 << w) - 1, v.ty)})", v.ty)
+            return Val(f"(if {b.atom()}.toNat ≤ {v.atom()}.toNat then {v.atom()} - {b.atom()} else {lit_lean(0, v.ty)})", v.ty)
         if name in ("rotate_left", "rotate_right"):
+            if v.ty not in INT:
+                raise Unsupported(f".{name}() on a value of type {v.ty}")
             b = self.expr(args[0])
             if b.lit is None:
                 amt = b.atom() if b.ty == "nat" else f"{b.atom()}.toNat"
@@ -676,9 +1087,15 @@ class FnTr:
             return Val(f"{'U32' if v.ty == 'u32' else 'U64'}.toLE {v.atom()}", ("arr", "u8", INT[v.ty] // 8))
         if name in ("as_mut", "as_ref", "clone", "iter") and not args:
             return v
+        if name in ("to_le", "from_le") and not args and v.ty in INT:
+            return v          # little-endian host (DESIGN §10): the identity
         if name == "len" and not args:
             if v.elems is not None:
                 return Val(str(len(v.elems)), "nat", lit=len(v.elems))
+            if is_arr(v.ty):
+                return Val(str(v.ty[2]), "nat", lit=v.ty[2])
+            if not (isinstance(v.ty, tuple) and v.ty[0] in ("arr", "slice") and v.ty[1] == "u8"):
+                raise Unsupported(".len() on this type")
             return Val(f"{v.atom()}.length", "nat")
         if name == "wrapping_neg":
             return Val(f"-{v.atom()}", v.ty)
@@ -686,22 +1103,153 @@ class FnTr:
             raise Unsupported("count_ones")
         raise Unsupported(f"method .{name}()")
 
-    def self_call(self, name, args):
+    @staticmethod
+    def proj(t, i, n):
+        """i-th component of the n-tuple `t`"""
+        if n == 1:
+            return t
+        return t + ".2" * i + (".1" if i < n - 1 else "")
+
+    def arg_texts(self, v, pty):
+        """Lean argument text(s) for a value passed to a parameter of type pty (flattened arrays: one per element)"""
+        if is_arr(pty, flat=True):
+            if v.elems is not None:
+                if len(v.elems) != pty[2]:
+                    raise Unsupported("array argument of a different length")
+                return [self.fix(x, pty[1]).atom() for x in v.elems]
+            if not is_arr(v.ty) or v.ty[2] != pty[2]:
+                raise Unsupported("array argument of unknown shape")
+            return [f"(rd {v.atom()} {i})" for i in range(pty[2])]
+        if is_arr(pty, flat=False):
+            if v.elems is not None:
+                if len(v.elems) != pty[2]:
+                    raise Unsupported("array argument of a different length")
+                return ["#[" + ", ".join(self.fix(x, pty[1]).lean for x in v.elems) + "]"]
+            if is_arr(v.ty) and v.ty[2] != pty[2]:
+                raise Unsupported("array argument of a different length")
+            return [v.atom()]
+        if v.elems is not None:
+            raise Unsupported("flattened array passed to a non-array parameter")
+        return [v.atom()]
+
+    def emit_call(self, name, recv, args):
+        """call of a translated function of this unit: `recv` is the Lean name of the receiver (methods) or None.
+        Result convention of every translated function: (return value?, `&mut` parameters in order…, receiver if `&mut self`)."""
         sig = self.u.sigs[name]
-        avals = [self.expr(a, p[1] if p[1] != ("named", "Self") else None) for a, p in zip(args, sig["params"])]
-        argstr = "".join(" " + a.atom() for a in avals)
-        fn = f"{self.u.namespace}.{name}"
-        if sig["selfkind"] == "mut":
-            if sig["ret"] is None:
-                self.emit(f"let st := {fn} st{argstr};")
-                return Val("()", "unit")
+        if len(args) != len(sig["params"]):
+            raise Unsupported(f"call of {name} with {len(args)} arguments")
+        vals, outs = [], []
+        for a, (pn, pty) in zip(args, sig["params"]):
+            n0 = len(self.lines)
+            if pn in sig["mutref"]:
+                place = a
+                while place[0] in ("ref", "paren"):
+                    place = place[2] if place[0] == "ref" else place[1]
+                v = self.read_place(place, pty)
+                outs.append((place, pty))
+                vals.append([v, pty, True])
+            else:
+                v = self.expr(a, pty if pty != ("named", "Self") else None)
+                vals.append([v, pty, False])
+            for prev in vals[:-1]:
+                if not prev[2]:
+                    prev[0] = self.pin(prev[0], n0)
+        texts = []
+        for v, pty, _ in vals:
+            texts += self.arg_texts(v, pty)
+        fn = getattr(self.u, "extern", {}).get(name) or f"{self.u.namespace}.{name}"
+        call = fn + (f" {recv}" if recv is not None else "") + "".join(" " + t for t in texts)
+        ret = sig["ret"]
+        if ret in (("named", self.u.name),):
+            ret = ("named", "Self")
+        comps = (["ret"] if ret is not None else []) + [("out", o) for o in outs] + \
+                ([("recv", recv)] if sig["selfkind"] == "mut" else [])
+        n = len(comps)
+        if n == 0:
+            return Val("()", "unit")
+        if comps == ["ret"]:
+            return Val(call, ret)
+        if n == 1:
+            t = call
+        else:
             t = self.fresh("r")
-            self.emit(f"let {t} := {fn} st{argstr};")
-            self.emit(f"let st := {t}.2;")
-            return Val(f"{t}.1", sig["ret"])
-        if sig["selfkind"] in ("ref", "value"):
-            return Val(f"{fn} st{argstr}", sig["ret"])
-        return Val(f"{fn}{argstr}", sig["ret"])
+            self.emit(f"let {t} := {call};")
+        result = Val("()", "unit")
+        for i, c in enumerate(comps):
+            text = self.proj(t, i, n)
+            if c == "ret":
+                result = Val(text, ret)
+            elif c[0] == "recv":
+                self.emit(f"let {recv} := {text};")
+            else:
+                place, pty = c[1]
+                self.write_place(place, Val(text, pty))
+        return result
+
+    def copy_from_slice(self, dst, src):
+        """`dst[a..b].copy_from_slice(&src[c..d])` as element assignments.  In safe Rust the two slices cannot overlap (one is
+        borrowed mutably), so copying element by element in increasing order is the same as the simultaneous copy."""
+        dbase, doff, dlen = self.slice_of(dst)
+        sv = None
+        s0 = src
+        while s0[0] in ("ref", "paren"):
+            s0 = s0[2] if s0[0] == "ref" else s0[1]
+        if s0[0] == "path" and len(s0[1]) == 1:
+            v = self.lookup(s0[1][0])
+            if v is not None and v.elems is not None and v.view is None:
+                sv = v.elems
+        if sv is not None:
+            sbase, soff, slen = None, 0, len(sv)
+        else:
+            sbase, soff, slen = self.slice_of(src)
+        n = dlen if dlen is not None else slen
+        if n is None or (slen is not None and slen != n) or (dlen is not None and dlen != n):
+            raise Unsupported("copy_from_slice with lengths that are not equal constants")
+        flat = sv is not None
+        if not flat:
+            for b in (dbase, sbase):
+                kind, pl, _ = self.resolve_base(b)
+                if (kind == "var" and pl.elems is not None) or (kind == "field" and isinstance(pl[2], list)):
+                    flat = True
+        if flat:
+            if n > 64:
+                raise Unsupported("unrolled copy of more than 64 elements")
+            for k in range(n):
+                x = sv[k] if sv is not None else self.read_elem(sbase, ("lit", soff + k, None))
+                self.write_elem(dbase, ("lit", doff + k, None), x)
+            return Val("()", "unit")
+        j = self.fresh("j") + "'"        # not a Rust identifier: cannot clash with a source variable
+        def at(base, off):
+            return ("index", base, ("path", [j]) if off == 0 else ("bin", "+", ("lit", off, "usize"), ("path", [j])))
+        body = [("assign", at(dbase, doff), None, at(sbase, soff))]
+        self.for_stmt(("for", ("name", j), ("range", ("lit", 0, "usize"), ("lit", n, "usize"), False), (body, None)))
+        return Val("()", "unit")
+
+    def copy_within(self, recv, src, dest):
+        """`a.copy_within(lo..hi, d)`: memmove inside one slice — all source elements are read before the first is written"""
+        base, off, ln = self.slice_of(recv)
+        s0 = src
+        while s0[0] == "paren":
+            s0 = s0[1]
+        if s0[0] != "range" or s0[1] is None or s0[2] is None:
+            raise Unsupported("copy_within with an open range")
+        lo, hi, d = self.expr(s0[1], "nat").lit, self.expr(s0[2], "nat").lit, self.expr(dest, "nat").lit
+        if lo is None or hi is None or d is None:
+            raise Unsupported("copy_within with bounds that are not constants")
+        if s0[3]:
+            hi += 1
+        n = hi - lo
+        if n < 0 or n > 64 or (ln is not None and (hi > ln or d + n > ln)):
+            raise Unsupported("copy_within out of range / of more than 64 elements")
+        tmps = []
+        for k in range(n):
+            x = self.read_elem(base, ("lit", off + lo + k, "usize"))
+            t = self.fresh("c")
+            self.emit(f"let {t} := {x.lean};")
+            tmps.append(Val(t, x.ty))
+        for k in range(n):
+            self.write_elem(base, ("lit", off + d + k, "usize"), tmps[k])
+        return Val("()", "unit")
 
     def call(self, e, want):
         f, args = e[1], e[2]
@@ -709,14 +1257,28 @@ class FnTr:
             raise Unsupported("call of a non-path")
         name = f[1][-1]
         full = "::".join(f[1])
-        if name == "w" or full == "Wrapping":        # core::num::Wrapping constructor
-            return self.expr(args[0], want)
+        if (name == "w" and len(f[1]) == 1 and "w" not in self.u.sigs) or full in ("Wrapping", "core::num::Wrapping"):
+            # core::num::Wrapping constructor
+            if len(args) != 1:
+                raise Unsupported("Wrapping constructor")
+            v = self.expr(args[0], unwrap_ty(want) if want in INT else None)
+            wt = {"u32": "w32", "u64": "w64"}.get(v.ty, v.ty)
+            if v.ty is None and want in WRAP:
+                v = self.fix(v, WRAP[want]); wt = want
+            return Val(v.lean, wt, lit=v.lit, elems=v.elems)
         if full in self.u.prims or name in self.u.prims:
             return (self.u.prims.get(full) or self.u.prims[name])(self, args, want)
-        if f[1][0] in ("Self", self.u.name) and name in self.u.sigs and len(f[1]) == 2:
-            sig = self.u.sigs[name]
-            avals = [self.expr(a, p[1]) for a, p in zip(args, sig["params"])]
-            return Val(f"{self.u.namespace}.{name}" + "".join(" " + a.atom() for a in avals), sig["ret"])
+        if name in self.u.sigs and not self.u.sigs[name]["selfkind"] and \
+                (len(f[1]) == 1 or (len(f[1]) == 2 and f[1][0] in ("Self", self.u.name))):
+            if len(f[1]) == 1 and self.scope.get(name) is not None:
+                raise Unsupported(f"call of the local value {name}")
+            return self.emit_call(name, None, args)
+        if full in ("u32::from", "u64::from", "u16::from", "u128::from") and len(args) == 1:
+            v = self.expr(args[0])
+            to = f[1][0]
+            if v.ty not in INT or v.ty.startswith("i") or v.ty in WRAP or INT[v.ty] > INT[to]:
+                raise Unsupported(f"{full} of a value of type {v.ty}")
+            return v if INT[v.ty] == INT[to] else Val(f"{v.atom()}.setWidth {INT[to]}", to)
         if full in ("u32::from_le_bytes", "u64::from_le_bytes"):
             a = self.expr(args[0])
             if a.elems is None:
@@ -737,8 +1299,15 @@ class FnTr:
                     raise Unsupported("array field initialised from a non-flattened value")
                 for p, x in zip(proj, v.elems):
                     parts[p] = self.coerce(x, rty[1]).lean
+            elif v.elems is not None:
+                if not is_arr(rty) or len(v.elems) != rty[2]:
+                    raise Unsupported("array field initialised from a value of a different shape")
+                parts[proj] = "#[" + ", ".join(self.fix(x, rty[1]).lean for x in v.elems) + "]"
             else:
                 parts[proj] = v.lean
+        missing = [f for f in si.fields if f not in dict(e[2])]
+        if missing:
+            raise Unsupported(f"struct literal without field {missing[0]}")
         if list(parts) == [None]:
             return Val(parts[None], ("named", "Self"))
         return Val("{ " + ", ".join(f"{p} := {x}" for p, x in parts.items()) + f" : {si.lean} }}", ("named", "Self"))
@@ -809,15 +1378,38 @@ class FnTr:
     def declare_let(self, s):
         _, pat, mut, ty, init = s
         if pat[0] != "name":
-            raise Unsupported("tuple pattern")
+            return self.declare_split(pat, init)
         n = pat[1]
+        self.check_shadow(n)
         key = ("let", self.decl_counter())
         dty = parse_ty(ty) if ty else None
         if dty is None:
             dty = self.inferred.get(key)
         if init is None:
             raise Unsupported("let without initialiser")
+        i0 = init
+        while i0[0] == "paren":
+            i0 = i0[1]
+        if i0[0] == "ref" and i0[2][0] == "field" and self.struct_var(i0[2][1]) is not None:
+            # `let t = &mut owner.field;` with an array field: moved out, written back when the owner is used again
+            owner = self.place_root(i0[2][1])
+            rty, proj = self.self_field(i0[2][2])
+            if owner is not None and is_arr(rty) and isinstance(proj, str):
+                sv = self.struct_var(i0[2][1])
+                ln = lname(n)
+                self.emit(f"let {ln} := {sv}.{proj};")
+                var = Var(n, rty, ln, key=key, alias=(owner, i0[2][2]) if i0[1] else None)
+                self.scope.declare(n, var)
+                if i0[1]:
+                    self.aliases.append(var)
+                return
         v = self.expr(init, dty)
+        if v.lean is not None and "@@ELEM@@" in v.lean:
+            ity = self.inferred.get(key)
+            if isinstance(ity, tuple) and ity[0] == "arr" and ity[1] is not None:
+                v = Val(v.lean.replace("@@ELEM@@", lit_lean(0, ity[1])), ity)
+            elif isinstance(dty, tuple) and dty[0] == "arr" and dty[1] is not None:
+                v = Val(v.lean.replace("@@ELEM@@", lit_lean(0, dty[1])), dty)
         vty = dty if dty is not None else v.ty
         ln = lname(n)
         if v.elems is not None:
@@ -841,9 +1433,60 @@ class FnTr:
             self.emit(f"let {ln} := {v.lean};")
         self.scope.declare(n, Var(n, vty, ln, key=key))
 
+    def check_shadow(self, n):
+        """a new binding of a name that is the base of a live slice view / alias would silently redirect it"""
+        sc = self.scope
+        while sc:
+            for v in sc.vars.values():
+                if (v.view is not None and self.place_root(v.view[0]) == n) or (v.alias is not None and not v.dead and v.alias[0] == n):
+                    raise Unsupported(f"`{n}` re-declared while borrowed")
+            sc = sc.parent
+
+    def declare_split(self, pat, init):
+        """`let (p, q) = x.split_at_mut(k);` / `x.split_at(k)`: p and q are views of x at offsets 0 and k"""
+        i0 = init
+        while i0 is not None and i0[0] == "paren":
+            i0 = i0[1]
+        if pat[0] != "tuple" or len(pat[1]) != 2 or i0 is None or i0[0] != "mcall" or i0[2] not in ("split_at", "split_at_mut") \
+                or len(i0[3]) != 1:
+            raise Unsupported("tuple pattern")
+        k = self.expr(i0[3][0], "nat").lit
+        if k is None:
+            raise Unsupported("split_at with a non-constant position")
+        base, off, ln = self.slice_of(i0[1])
+        if ln is not None and k > ln:
+            raise Unsupported("split_at beyond the length")
+        kind, pl, _ = self.resolve_base(base)
+        for n in pat[1]:
+            self.check_shadow(n)
+        if kind == "var" and pl.elems is not None:
+            es = pl.elems[off:] if ln is None else pl.elems[off:off + ln]
+            if i0[2] == "split_at_mut":
+                raise Unsupported("split_at_mut of a flattened array")
+            self.scope.declare(pat[1][0], Var(pat[1][0], ("arr", pl.ty[1] if pl.ty else None, k), None, elems=es[:k], const=True))
+            self.scope.declare(pat[1][1], Var(pat[1][1], ("arr", pl.ty[1] if pl.ty else None, len(es) - k), None, elems=es[k:], const=True))
+            return
+        if kind == "field" and isinstance(pl[2], list):
+            raise Unsupported("split_at of a flattened field")
+        self.scope.declare(pat[1][0], Var(pat[1][0], None, None, view=(base, off, k)))
+        self.scope.declare(pat[1][1], Var(pat[1][1], None, None, view=(base, off + k, None if ln is None else ln - k)))
+
     def decl_counter(self):
         self._decls = getattr(self, "_decls", 0) + 1
         return self._decls
+
+    def local_consts(self):
+        d = dict(self.u.const_vals)
+        sc, chain = self.scope, []
+        while sc:
+            chain.append(sc); sc = sc.parent
+        for sc in reversed(chain):
+            for n, v in sc.vars.items():
+                if v.const and getattr(v, "lit", None) is not None:
+                    d[n] = v.lit
+                elif n in d:
+                    del d[n]
+        return d
 
     def stmts(self, stmts):
         for i, s in enumerate(stmts):
@@ -862,7 +1505,9 @@ class FnTr:
                 self.scope.declare(s[1], Var(s[1], ("list", cty[1]), ln, const=True))
             else:
                 self.emit(f"let {ln} := {v.lean};")
-                self.scope.declare(s[1], Var(s[1], cty, ln, const=True))
+                var = Var(s[1], cty, ln, const=True)
+                var.lit = v.lit if v.lit is not None else (const_eval(s[3], self.local_consts()) if cty == "nat" else None)
+                self.scope.declare(s[1], var)
             return
         if k == "assign":
             _, place, op, rhs = s
@@ -876,7 +1521,18 @@ class FnTr:
                 v = self.expr(rhs, cur_ty)
                 self.write_place(place, v)
             else:
-                v = self.binop(op, place, rhs, None)
+                # compound assignment: the right operand is evaluated first, the place is read after it
+                hint = None
+                try:
+                    hint = self.read_place(place).ty
+                except Unsupported:
+                    pass
+                if op in ("<<", ">>"):
+                    b = self.expr(rhs)
+                else:
+                    b = self.expr(rhs, hint)
+                a = self.read_place(place)
+                v = self.binop(op, None, None, None, pre=(a, b))
                 self.write_place(place, v)
             return
         if k == "expr":
@@ -894,7 +1550,11 @@ class FnTr:
                     self.scope = saved
                 return
             if e[0] == "macro":
-                if e[1] in ("debug_assert", "debug_assert_eq", "trace", "debug", "info", "warn", "error"):
+                if e[1] in ("trace", "debug", "info", "warn", "error"):
+                    return
+                if e[1] in ("assert", "assert_eq", "assert_ne", "debug_assert", "debug_assert_eq", "debug_assert_ne"):
+                    # a failing assertion is a panic: the subject of C14, not of this tie (reported, not translated)
+                    self.ignored_asserts.append(e[1] + "!(" + " ".join(t[1] for t in e[2])[:120] + ")")
                     return
                 raise Unsupported(f"statement macro {e[1]}!")
             self.expr(e)       # for its effects (self calls emit bindings)
@@ -902,11 +1562,19 @@ class FnTr:
         if k == "for":
             return self.for_stmt(s)
         if k == "fn":
-            raise Unsupported(f"nested fn {s[1].name} (translated separately when listed)")
+            # a nested fn item: translated separately when it is listed in the unit; a call of one that is not raises
+            # Unsupported at the call (`call of <name>`)
+            if self.scope.get(s[1].name) is not None:
+                raise Unsupported(f"nested fn {s[1].name} shadows a variable")
+            m = self.u.methods.get(s[1].name)
+            if m is not None and (m.body != s[1].body or m.params != s[1].params or m.ret != s[1].ret):
+                raise Unsupported(f"nested fn {s[1].name} is not the translated function of that name")
+            return
         raise Unsupported(f"statement {k}")
 
     def if_stmt(self, e):
         _, c, th, el = e
+        self.preflush(e)
         cv = self.expr(c, "bool")
         names = self.assigned(th[0], th[1])
         if el is not None:
@@ -921,6 +1589,7 @@ class FnTr:
                     self.stmts(b[0])
                     if b[1] is not None:
                         self.expr(b[1])
+                self.end_scope()
                 return self.tuple_of(names)
             return self.sub(f)
         l1, t1 = br(th)
@@ -928,26 +1597,142 @@ class FnTr:
         pat = self.tuple_of(names)
         self.emit(f"let {pat} := if {cv.lean} then {self.render(l1, t1)} else {self.render(l2, t2)};")
 
+    def subst_deref(self, x, m):
+        """replace `*name` by m[name] in an AST fragment; any other mention of such a name is not understood"""
+        if isinstance(x, tuple):
+            if len(x) == 2 and x[0] == "deref" and x[1][0] == "path" and len(x[1][1]) == 1 and x[1][1][0] in m:
+                return m[x[1][1][0]]
+            if len(x) == 3 and x[0] == "field" and x[1][0] == "path" and len(x[1][1]) == 1 and x[1][1][0] in m:
+                return ("field", m[x[1][1][0]], x[2])          # `x.0` through the reference
+            if len(x) == 2 and x[0] == "path" and len(x[1]) == 1 and x[1][0] in m:
+                raise Unsupported(f"use of the iteration reference `{x[1][0]}` other than through `*{x[1][0]}`")
+            return tuple(self.subst_deref(y, m) for y in x)
+        if isinstance(x, list):
+            return [self.subst_deref(y, m) for y in x]
+        return x
+
+    def zip_for(self, var, it0, body):
+        """`for (x, y) in a.iter_mut().zip(b.iter()) { … *x … *y … }`: element-wise loop over min(len a, len b) positions.
+        A side may also be `b.chunks_exact(c)` (c constant): then its variable is the k-th chunk, a slice view of b."""
+        if len(var[1]) != 2 or it0[0] != "mcall" or it0[2] != "zip" or len(it0[3]) != 1:
+            raise Unsupported("tuple loop variable")
+        sides = []
+        for side in (it0[1], it0[3][0]):
+            if side[0] == "mcall" and side[2] in ("iter", "iter_mut") and not side[3]:
+                b, o, l = self.slice_of(side[1])
+                sides.append((b, o, l, 1, False))
+            elif side[0] == "mcall" and side[2] == "chunks_exact" and len(side[3]) == 1:
+                c = self.expr(side[3][0], "nat").lit
+                b, o, l = self.slice_of(side[1])
+                if not c:
+                    raise Unsupported("chunks_exact with a non-constant size")
+                sides.append((b, o, None if l is None else l // c, c, True))
+            else:
+                raise Unsupported("zip of something other than .iter() / .iter_mut() / .chunks_exact(c)")
+        if sides[0][2] is None or sides[1][2] is None:
+            raise Unsupported("zip over slices of unknown length")
+        n = min(sides[0][2], sides[1][2])
+        flat = any(c for _, _, _, _, c in sides)
+        for b, _, _, _, _ in sides:
+            kind, pl, _ = self.resolve_base(b)
+            if (kind == "var" and pl.elems is not None) or (kind == "field" and isinstance(pl[2], list)):
+                flat = True
+        if body[1] is not None:
+            raise Unsupported("loop body with a value")
+        if flat:
+            if n > 64:
+                raise Unsupported("unrolled zip of more than 64 elements")
+            for k in range(n):
+                saved = self.scope
+                self.scope = Scope(saved)
+                try:
+                    m = {}
+                    for name, (b, o, _, c, chunk) in zip(var[1], sides):
+                        if chunk:
+                            self.scope.declare(name, Var(name, None, None, view=(b, o + c * k, c)))
+                        else:
+                            m[name] = ("index", b, ("lit", o + k, "usize"))
+                    self.stmts(self.subst_deref(body[0], m))
+                    self.end_scope()
+                finally:
+                    self.scope = saved
+            return
+        j = self.fresh("j") + "'"        # not a Rust identifier: cannot clash with a source variable
+        def at(base, off):
+            return ("index", base, ("path", [j]) if off == 0 else ("bin", "+", ("lit", off, "usize"), ("path", [j])))
+        m = {name: at(b, o) for name, (b, o, _, _, _) in zip(var[1], sides)}
+        self.for_stmt(("for", ("name", j), ("range", ("lit", 0, "usize"), ("lit", n, "usize"), False),
+                       (self.subst_deref(body[0], m), None)))
+
     def for_stmt(self, s):
         _, var, it, body = s
-        if var[0] != "name":
-            raise Unsupported("tuple loop variable")
+        self.preflush(s)
         # iterable
         it0 = it
         while it0[0] in ("ref", "paren"):
             it0 = it0[2] if it0[0] == "ref" else it0[1]
+        if var[0] != "name":
+            return self.zip_for(var, it0, body)
+        if it0[0] == "mcall" and it0[2] == "iter_mut" and not it0[3] and var[1] != "_":
+            # `for x in a.iter_mut() { … *x … }`: element-wise over the whole array
+            base, off, ln = self.slice_of(it0[1])
+            kind, pl, _ = self.resolve_base(base)
+            if ln is None or (kind == "var" and pl.elems is not None) or (kind == "field" and isinstance(pl[2], list)) or body[1] is not None:
+                raise Unsupported("iter_mut over this value")
+            j = self.fresh("j") + "'"
+            at = ("index", base, ("path", [j]) if off == 0 else ("bin", "+", ("lit", off, "usize"), ("path", [j])))
+            return self.for_stmt(("for", ("name", j), ("range", ("lit", 0, "usize"), ("lit", ln, "usize"), False),
+                                  (self.subst_deref(body[0], {var[1]: at}), None)))
         if it0[0] == "mcall" and it0[2] == "iter":
             it0 = it0[1]
+        mapf = None
+        if it0[0] == "mcall" and it0[2] == "map" and len(it0[3]) == 1 and it0[3][0][0] == "closure" and len(it0[3][0][1]) == 1:
+            # `(a..b).map(|i| e)`: the list of the images
+            r0 = it0[1]
+            while r0[0] == "paren":
+                r0 = r0[1]
+            if r0[0] != "range":
+                raise Unsupported(".map over something other than a range")
+            c = it0[3][0]
+            sc = Scope(self.scope)
+            sc.declare(c[1][0], Var(c[1][0], "nat", lname(c[1][0])))
+            saved, n0 = self.scope, len(self.lines)
+            self.scope = sc
+            try:
+                img = self.expr(c[2], "nat")
+            finally:
+                self.scope = saved
+            if len(self.lines) != n0 or img.ty != "nat":
+                raise Unsupported("closure of .map with effects or a non-usize value")
+            mapf = f"(fun {lname(c[1][0])} => {img.lean})"
+            it0 = r0
         if it0[0] == "range":
+            if it0[2] is None:
+                raise Unsupported("unbounded range")
             lo = self.expr(it0[1], "nat") if it0[1] is not None else Val("0", "nat", lit=0)
-            hi = self.expr(it0[2], "nat")
+            h0 = it0[2]
+            while h0[0] == "paren":
+                h0 = h0[1]
+            hv = self.lookup(h0[1][0]) if h0[0] == "path" and len(h0[1]) == 1 else None
+            hi = self.expr(it0[2]) if hv is not None and hv.ty in INT else self.expr(it0[2], "nat")
+            vty = "nat"
+            if hi.ty is None:
+                hi = self.fix(hi, "nat")
+            elif hi.ty in INT and not hi.ty.startswith("i") and INT[hi.ty] <= 64 and lo.lit == 0:
+                # `0..n` with n: u32 / u64 …: n.toNat iterations; the counter itself must not be used (it is not a usize)
+                if var[1] != "_" and self.mentions(body, var[1]):
+                    raise Unsupported("loop counter of a non-usize integer type is used")
+                hi = Val(f"{hi.atom()}.toNat", "nat", lit=hi.lit)
+            elif hi.ty != "nat":
+                raise Unsupported("range bound of this type")
             if it0[3]:
                 hi = Val(f"({hi.lean} + 1)", "nat", lit=None if hi.lit is None else hi.lit + 1)
             if lo.lit == 0:
                 lst = f"(List.range {hi.atom()})"
             else:
                 lst = f"(List.range' {lo.atom()} ({hi.atom()} - {lo.atom()}))"
-            vty = "nat"
+            if mapf is not None:
+                lst = f"(List.map {mapf} {lst})"
         else:
             v = self.expr(it0)
             if isinstance(v.ty, tuple) and v.ty[0] == "list":
@@ -958,16 +1743,19 @@ class FnTr:
                 raise Unsupported("for over this iterable")
         names = self.assigned(body[0], body[1], declared={var[1]})
         pat = None
+        lv = "_" if var[1] == "_" else lname(var[1])
         def f():
-            self.scope.declare(var[1], Var(var[1], vty, lname(var[1])))
+            if var[1] != "_":
+                self.scope.declare(var[1], Var(var[1], vty, lv, const=True))
             self.stmts(body[0])
             if body[1] is not None:
                 self.expr(body[1])
+            self.end_scope()
             return self.tuple_of(names)
         lines, t = self.sub(f)
         pat = self.tuple_of(names)
         self.emit(f"let {pat} := List.foldl (fun {pat if pat.startswith('(') or pat == '()' else '(' + pat + ')'} "
-                  f"{lname(var[1])} => {self.render(lines, t)}) {pat} {lst};")
+                  f"{lv} => {self.render(lines, t)}) {pat} {lst};")
 
     # ---------- whole function
     def body_to_lean(self, stmts, tail, ret_ty, selfkind):
@@ -990,33 +1778,123 @@ class FnTr:
             if s[0] == "return":
                 self.stmts(stmts[:i])
                 return self.final(s[1], ret_ty, selfkind)
+            if s[0] == "expr" and s[1][0] == "unsafe":
+                self.stmts(stmts[:i])
+                arr, nbytes, rdfn = self.unsafe_fill(s[1][1])
+                bs, er = self.fresh("bytes"), self.fresh("err")
+                def g():
+                    self.emit(f"let {arr.lean} := ({rdfn} {bs} {arr.ty[2]}).toArray;")
+                    return self.body_to_lean(stmts[i + 1:], tail, ret_ty, selfkind)
+                l2, r2 = self.sub(g)
+                rng = self.rng.lean
+                return (f"match fill {rng} {nbytes} with\n  | (.ok {bs}, {rng}) => {self.render(l2, r2)}"
+                        f"\n  | (.error {er}, {rng}) => (.error {er}, {rng})")
         self.stmts(stmts)
         return self.final(tail, ret_ty, selfkind)
 
+    def unsafe_fill(self, toks):
+        """The one `unsafe` idiom that is mapped — a PRIMITIVE of the trusted base (DESIGN §3b, Extension):
+              let ptr = ARR.as_mut_ptr() as *mut u8;
+              let slice = slice::from_raw_parts_mut(ptr, N * size_of(elem));
+              RNG.fill_bytes(slice);              or   RNG.try_fill_bytes(slice)?;
+        where ARR is a local array of N words that covers exactly these bytes and RNG is the source parameter: the source is
+        asked for N * size bytes, and (little-endian host) ARR becomes the little-endian words of these bytes; a failing source
+        ends the function with its error."""
+        text = " ".join(t[1] for t in toks)
+        m = re.match(r"^let ptr = (\w+) \. as_mut_ptr \( \) as \* mut u8 ; let slice = (?:core :: )?slice :: from_raw_parts_mut \( ptr , "
+                     r"(.+?) \) ; (\w+) \. (?:fill_bytes \( slice \)|(try_fill_bytes) \( slice \) \?) ;$", text)
+        if m is None or self.rng is None or m.group(3) != self.rng.name:
+            raise Unsupported("unsafe block")
+        if bool(m.group(4)) != self.rng_fallible:
+            raise Unsupported("unsafe block (fill / try_fill does not match the function's result type)")
+        arr = self.lookup(m.group(1))
+        ty = arr.ty if arr is not None and arr.ty is not None else (self.inferred.get(arr.key) if arr is not None else None)
+        if arr is None or arr.elems is not None or arr.view is not None or not is_arr(ty) or unwrap_ty(ty[1]) not in ("u32", "u64"):
+            raise Unsupported("unsafe block (the array is not a local word array)")
+        w = INT[ty[1]]
+        try:
+            ne = rsfront.Parser(rsfront.lex(m.group(2).replace(" ", "")), {}).parse_expr_all()
+        except Exception:
+            raise Unsupported("unsafe block (length expression)")
+        nbytes = const_eval(ne, self.local_consts())
+        if nbytes != ty[2] * (w // 8):
+            raise Unsupported("unsafe block (the byte length is not the size of the array)")
+        arr.ty = ty
+        return arr, nbytes, "readU32s" if w == 32 else "readU64s"
+
     def final(self, tail, ret_ty, selfkind):
+        """the function's result: (return value?, `&mut` parameters in order…, st if `&mut self`)"""
+        comps = []
         if ret_ty is None:
             if tail is not None:
                 self.expr(tail)
-            return "st" if selfkind == "mut" else "()"
-        if tail is None:
-            raise Unsupported("function with a return type but no tail expression")
-        v = self.expr(tail, ret_ty if ret_ty != ("named", "Self") else None)
+        else:
+            if tail is None:
+                raise Unsupported("function with a return type but no tail expression")
+            if self.rng is not None and self.rng_fallible:
+                t0 = tail
+                while t0[0] == "paren":
+                    t0 = t0[1]
+                if not (t0[0] == "call" and t0[1] == ("path", ["Ok"]) and len(t0[2]) == 1):
+                    raise Unsupported("result of a fallible constructor that is not Ok(…)")
+                tail, ret_ty = t0[2][0], ("named", "Self")
+            v = self.expr(tail, ret_ty if ret_ty != ("named", "Self") else None)
+            if v.elems is not None:
+                if not is_arr(ret_ty) or len(v.elems) != ret_ty[2]:
+                    raise Unsupported("array result of a different shape")
+                comps.append("#[" + ", ".join(self.fix(x, ret_ty[1]).lean for x in v.elems) + "]")
+            else:
+                if v.lean is None or "@@" in v.lean and "@@ELEM@@" in v.lean:
+                    raise Unsupported("result of unknown element type")
+                comps.append(v.lean)
+        for a in list(self.aliases):
+            self.flush(a)
+        for n in self.outs:
+            ov = self.scope.get(n)
+            if ov is None or ov.elems is not None or ov.view is not None:
+                raise Unsupported(f"`&mut` parameter {n} is not a plain variable at the end of the function")
+            comps.append(ov.lean)
         if selfkind == "mut":
-            return f"({v.lean}, st)"
-        return v.lean
+            comps.append("st")
+        if self.rng is not None:
+            if len(comps) != 1:
+                raise Unsupported("function with a source parameter and other results")
+            return f"(.ok {Val(comps[0], None).atom()}, {self.rng.lean})"
+        if not comps:
+            return "()"
+        return comps[0] if len(comps) == 1 else "(" + ", ".join(comps) + ")"
 
     def translate(self):
         fn = self.fn
         sig = self.u.sigs[self.fname]
+        self.sig = sig
+        self.u.enter()
         rsfront._expansion_counter[0] = 0
         stmts, tail = parse_body(fn.body, self.u.macros)
         self.lines = []
         self.scope = Scope()
+        self.outs = []
         params = []
         if sig["selfkind"]:
             params.append(f"(st : {self.u.sinfo.lean})")
+            self.scope.declare("self", Var("self", ("named", "Self"), "st"))
+        rparts = []
+        self.rng, self.rng_fallible = None, False
+        gen = " ".join(t[1] for t in (fn.generics or []))
         for n, ty in sig["params"]:
+            mr = n in sig["mutref"]
+            if isinstance(ty, tuple) and ty[0] == "named" and mr and (
+                    ty[1] in ("implRngCore", "implTryRngCore") or re.search(r"\b" + re.escape(ty[1]) + r" : (Try)?RngCore\b", gen)):
+                # a source of bytes: `(fill : TryFill ρ) (rng : ρ)`; the function returns `Except SrcErr result × ρ`
+                if self.rng is not None or sig["selfkind"]:
+                    raise Unsupported("more than one source parameter / source parameter of a method")
+                self.rng = Var(n, ("named", "@rng"), lname(n))
+                self.scope.declare(n, self.rng)
+                params.append(f"{{ρ : Type}} (fill : TryFill ρ) ({lname(n)} : ρ)")
+                continue
             if isinstance(ty, tuple) and ty[0] == "arr" and ty[1] == "u8":
+                if mr:
+                    raise Unsupported("`&mut` byte-string parameter")
                 self.scope.declare(n, Var(n, ty, lname(n)))
                 params.append(f"({lname(n)} : List U8)")
             elif isinstance(ty, tuple) and ty[0] == "named" and ty[1] in self.u.prims.get("@bytes_types", ()):
@@ -1025,29 +1903,54 @@ class FnTr:
             elif isinstance(ty, tuple) and ty[0] == "named" and ty[1] == "Self::Seed":
                 self.scope.declare(n, Var(n, ("arr", "u8", None), lname(n)))
                 params.append(f"({lname(n)} : List U8)")
+            elif is_arr(ty, flat=True):
+                if mr:
+                    raise Unsupported("`&mut` parameter that is a small (flattened) array")
+                elems = [Val(f"{lname(n)}_{i}", ty[1]) for i in range(ty[2])]
+                self.scope.declare(n, Var(n, ty, None, elems=elems))
+                params += [f"({x.lean} : {lean_ty(ty[1])})" for x in elems]
             else:
-                self.scope.declare(n, Var(n, ty, lname(n)))
+                if isinstance(ty, tuple) and ty[0] == "arr" and not isinstance(ty[2], int):
+                    raise Unsupported(f"array parameter of unknown length {ty[2]}")
+                self.scope.declare(n, Var(n, ty, lname(n), mutref=mr))
                 params.append(f"({lname(n)} : {lean_ty(ty)})")
+                if mr:
+                    self.outs.append(n)
+                    rparts.append(lean_ty(ty))
         ret = sig["ret"]
+        if self.rng is not None:
+            if isinstance(ret, tuple) and ret[0] == "named" and re.match(r"^Result<Self,\w+::Error>$", ret[1]):
+                self.rng_fallible, ret = True, ("named", "Result")
+            elif ret not in (("named", "Self"), ("named", self.u.name)):
+                raise Unsupported("function with a source parameter that does not construct Self")
         body = self.body_to_lean(stmts, tail, ret, sig["selfkind"])
-        if ret is None:
-            rty = self.u.sinfo.lean if sig["selfkind"] == "mut" else "Unit"
-        else:
-            r = self.u.sinfo.lean if ret in (("named", "Self"), ("named", self.u.name)) else lean_ty(ret)
-            rty = f"{r} × {self.u.sinfo.lean}" if sig["selfkind"] == "mut" else r
+        if self.rng is not None:
+            text = "\n  ".join(self.lines + [body])
+            return params, f"Except SrcErr ({self.u.sinfo.lean}) × ρ", text
+        if ret is not None:
+            rparts.insert(0, self.u.sinfo.lean if ret in (("named", "Self"), ("named", self.u.name)) else lean_ty(ret))
+        if sig["selfkind"] == "mut":
+            rparts.append(self.u.sinfo.lean)
+        rty = " × ".join(rparts) if rparts else "Unit"
         text = "\n  ".join(self.lines + [body])
         return params, rty, text
+
+LAST = {}
 
 def translate_fn(unit, fname):
     """fixpoint over the inference of untyped `let x = 0` declarations"""
     inferred = {}
-    for _ in range(4):
+    unit.enter()
+    for _ in range(6):
         tr = FnTr(unit, fname, inferred)
         params, rty, text = tr.translate()
         if not tr.changed:
             break
+    LAST[(unit.name, fname)] = dict(ignored_asserts=list(tr.ignored_asserts))
     def untyped(m):
         raise Unsupported(f"type of literal {m.group(1)} could not be inferred")
+    if "@@ELEM@@" in text:
+        raise Unsupported(f"element type of an array could not be inferred in {fname}")
     if "@@UNTYPED" in text or "@@LIT" in text:
         # last attempt: resolve from the inferred table is done through the re-run; anything left is unsupported
         m = re.search(r"@@(?:UNTYPED|LIT)(-?\d+)@@", text)
